@@ -152,7 +152,7 @@ def generate_mpo(I, terms=None, opts_svd=None, N=None, f_map=None) -> MpsMpoOBC:
     # i.e., operators at later sites in the chain are applied first
     # sign to permute to canonical order is calculated in signs
     f_ordered = lambda s0, s1: s0 <= s1
-    signs, sitess, opss, op_patterns = [], [], [], []
+    signs, sitess, opss, op_patterns, nonzero_terms = [], [], [], [], []
     for term in terms:
         if any(site < 0 or site > N or not isinstance(site, numbers.Integral) for site in term.positions):
             raise YastnError("Hterm: positions should be in 0, 1, ..., N-1.")
@@ -162,16 +162,27 @@ def generate_mpo(I, terms=None, opts_svd=None, N=None, f_map=None) -> MpsMpoOBC:
         f_positions = term.positions if f_map is None else [f_map[site] for site in term.positions]
         signs.append(sign_canonical_order(*term.operators, sites=f_positions, f_ordered=f_ordered))
         sites_ops = sorted(zip(term.positions, term.operators), key=itemgetter(0))
-        sites, ops = [], []
+        sites, ops, vanishes = [], [], False
         for site, group in groupby(sites_ops, key=itemgetter(0)):
             sites.append(site)
             op = next(group)[1]
             for el in group:
                 op = op @ el[1]
+            if op.size == 0:  # product of operators at the same site has no blocks, e.g., cp @ cp
+                vanishes = True
+                break
             ops.append(ind_list_tensors(op, unique_ops))
+        if vanishes:  # the term is identically zero
+            signs.pop()
+            continue
+        nonzero_terms.append(term)
         sites.append(N)
         sitess.append(sites)
         opss.append(ind_list(ops, op_patterns))
+
+    terms, M = nonzero_terms, len(nonzero_terms)
+    if M == 0:
+        return 0 * (I.copy() if isinstance(I, MpsMpoOBC) else product_mpo(I, N))
 
     n_patterns = [[unique_ops[ind].n for ind in ops] for ops in op_patterns]
     acc_n_patterns = [[sym.add_charges(*ns[n:]) for n in range(len(ns) + 1)] for ns in n_patterns]
